@@ -88,7 +88,7 @@ Lemma via_skipn {A} p i (l : list A) x : via (skipn i p) l x = skipn i (via p l 
 Proof. unfold via. symmetry. apply skipn_map. Qed.
 
 Lemma via_insert {A} p i (l : list A) x : via (insert_nth i None p) l x = insert_nth i x (via p l x).
-Proof. unfold insert_nth. rewrite via_app. cbn [via map]. rewrite via_firstn, via_skipn. reflexivity. Qed.
+Proof. unfold insert_nth, via. rewrite map_app. cbn [map]. rewrite firstn_map, skipn_map. reflexivity. Qed.
 
 Lemma via_remove {A} p i (l : list A) x : via (remove_nth i p) l x = remove_nth i (via p l x).
 Proof. unfold remove_nth. rewrite via_app, via_firstn, via_skipn. reflexivity. Qed.
